@@ -589,6 +589,34 @@ func derivesByAppend(v ssa.Value, phi *ssa.Phi, d int) bool {
 		if ssau.CallName(x) == "builtin.append" {
 			return derivesByAppend(x.Common().Args[0], phi, d+1)
 		}
+	case *ssa.MakeSlice:
+		// if list == nil { list = make([]T, 0, n) }: an empty list put in the
+		// place of the list only when that is nil — the same sequence
+		if k, ok := x.Len.(*ssa.Const); !ok || k.Value == nil || k.Int64() != 0 {
+			return false
+		}
+		b := x.Block()
+		if len(b.Preds) != 1 {
+			return false
+		}
+		p := b.Preds[0]
+		if len(p.Instrs) == 0 || len(p.Succs) != 2 || p.Succs[0] != b {
+			return false
+		}
+		iff, ok := p.Instrs[len(p.Instrs)-1].(*ssa.If)
+		if !ok {
+			return false
+		}
+		cmp, ok := iff.Cond.(*ssa.BinOp)
+		if !ok || cmp.Op != token.EQL {
+			return false
+		}
+		switch {
+		case ssau.IsNilConst(cmp.Y):
+			return derivesByAppend(cmp.X, phi, d+1)
+		case ssau.IsNilConst(cmp.X):
+			return derivesByAppend(cmp.Y, phi, d+1)
+		}
 	}
 	return false
 }
